@@ -3,6 +3,7 @@ Line-protocol driver: the glue model (`Glue/Methods.lean`) on top of the
 generated executable compute layer, at `Sym`.  One request per line:
     C <method> <self> <args…>      public property / method / conversion
     O <operator> <self> <args…>    operator
+    J <method> <self> <args…>      the same property / method in numba-COMPILED code (`Glue/Numba.lean`)
 vector token  `<g|m>:<az>:<lon|->:<tmp|->:<index>`   (coordinates are the variables x<i>, y<i>, …)
 argument tokens  `v=<vector>`  `s=<var>`  `i=<int>`  `f=<mantissa>e<exp>`  `o=<string>`  `k=<kw>=<scalar token>`
 Answer: `-> <g|m><dim> <az> <lon|-> <tmp|-> :: e1 | e2 | …`  |  `-> <expr>`  |  `!! <ErrorKind>`
@@ -11,6 +12,7 @@ Run: lake env lean --run VectorModel/Driver/GlueSym.lean < requests
 import VectorModel.Gen.Exec.All
 import VectorModel.Exec.Sym
 import VectorModel.Glue.Methods
+import VectorModel.Glue.Numba
 set_option linter.deprecated false
 open VK VE VG
 
@@ -117,6 +119,7 @@ def answer (line : String) : String :=
     | some v, some args =>
       if kind == "C" then describe (call ev K A meth v args)
       else if kind == "O" then describe (operator ev K A meth v args)
+      else if kind == "J" then describe (numbaCall ev K A meth v args)
       else "bad-op"
     | _, _ => "bad-op"
   | _ => "bad-op"
